@@ -34,7 +34,7 @@ TRANSFORMS = ["rebuild", "dup", "update", "json", "rebuild+json", "dup+rebuild"]
 EDITS = ["alter_value", "add_value", "remove_value", "change_formal", "change_id", "drop_id", "add_record",
          "remove_record", "add_empty_bundle", "add_bundle", "remove_bundle", "add_member", "remove_member", "swap_type"]
 REQUIRED_CLASSES = {"all": ["edit:" + e for e in EDITS] + ["transform:" + t for t in TRANSFORMS] +
-                    ["pair:equal", "pair:different", "records:eq_pairs", "mode:mutate_after_compare"]}
+                    ["pair:equal", "pair:different", "records:eq_pairs", "mode:mutate_after_compare", "touched_before_compare"]}
 
 SWAPS = {"Entity": "Agent", "Agent": "Entity", "Generation": "Invalidation", "Invalidation": "Usage",
          "Usage": "Generation", "Start": "End", "End": "Start", "Attribution": "Membership",
@@ -251,7 +251,14 @@ def compare(a, b, ref, what, items):
         items.append(_it("%s:ne_disagrees" % what, ne=[nab, nba], ref=ref))
 
 
-def compare_all(da, ca, db, cb, items, ctx):
+def compare_all(da, ca, db, cb, items, ctx, touch=None):
+    if touch is not None:
+        # read-only queries (lookups of absent identifiers, args, unified(), ...) must not change what == says
+        from ..touch import readonly_touch
+        readonly_touch(da, touch)
+        if touch % 3 == 0:
+            readonly_touch(db, touch)
+        ctx.count("touched_before_compare")
     la, lb = lossy(ca), lossy(cb)
     ref = la == lb
     ctx.count("pair:equal" if ref else "pair:different")
@@ -328,7 +335,7 @@ def check(case, ctx):
     if mode == "T":
         ctx.count("transform:" + case["t"])
         d1 = _transform(d0, c0, case["t"], case["order"], ctx)
-        compare_all(d0, c0, d1, c0, items, ctx)
+        compare_all(d0, c0, d1, c0, items, ctx, touch=case["order"][3] if case["order"][2] % 2 else None)
         # a chain for transitivity: d0 ~ d1 ~ d2
         d2 = construct(c0, list(reversed(case["order"])), style=3)
         compare(d1, d2, True, "chain12", items)
@@ -341,7 +348,7 @@ def check(case, ctx):
             return []
         ctx.count("edit:" + case["edit"])
         d1 = construct(c1, case["sel"], style=1)
-        ref = compare_all(d0, c0, d1, c1, items, ctx)
+        ref = compare_all(d0, c0, d1, c1, items, ctx, touch=case["sel"][3] if case["sel"][2] % 2 else None)
         if not ref:
             ctx.count("edit_changed_content")
         ctx.nontrivial(True)
